@@ -188,6 +188,8 @@ def kind_of(s):
             k = t if isinstance(t, str) else "any"
             if "enum" in s:
                 k += "-enum"
+            elif "const" in s:
+                k += "-const"
     if s.get("nullable") is True:
         k += "+nullable"
     return k
@@ -213,7 +215,7 @@ ALPHABET = "abcxyzABC019 _-é/?&=%+#\"\\é中\U0001F600"
 # ---------------------------------------------------------------------------
 
 class Gen:
-    def __init__(self, rng, ctx, honour_formats=True, max_depth=6, safe_strings=False):
+    def __init__(self, rng, ctx, honour_formats=True, max_depth=6, safe_strings=False, extras=True):
         self.r = rng
         self.ctx = ctx
         self.honour_formats = honour_formats
@@ -221,6 +223,8 @@ class Gen:
         self.unknown_formats = set()
         # safe_strings: no control characters etc. (values that travel in URLs / headers)
         self.safe_strings = safe_strings
+        # extras: add properties the schema does not name where it allows them
+        self.extras = extras
 
     # ---- scalars
     def rand_string(self, lo=0, hi=None):
@@ -418,7 +422,7 @@ class Gen:
             hi = s.get("maxItems")
             if hi is None:
                 hi = lo + r.choice((0, 1, 2, 3))
-            n = r.randint(lo, max(lo, hi)) if d < self.max_depth - 1 else lo
+            n = r.randint(lo, max(lo, hi)) if d < self.max_depth - 3 else lo
             items = s.get("items", True)
             out = []
             tries = 0
@@ -434,7 +438,7 @@ class Gen:
             req = s.get("required", [])
             out = {}
             for k, ps in props.items():
-                if k in req or (r.random() < 0.5 and d < self.max_depth - 1):
+                if k in req or (r.random() < 0.5 and d < self.max_depth - 3):
                     out[k] = self.gen(ps, d + 1)
             for k in req:
                 if k not in out:
@@ -445,8 +449,10 @@ class Gen:
             want_extra = 0
             if isinstance(ap, dict) or ap is True:
                 want_extra = r.choice((0, 1, 2)) if props else r.choice((0, 1, 2, 3))
-            elif ap is None and r.random() < 0.15:
+            elif ap is None and self.extras and r.random() < 0.15:
                 want_extra = 1
+            if d >= self.max_depth - 3:
+                want_extra = 0
             if len(out) + want_extra < minp and ap is not False:
                 want_extra = minp - len(out)
             for _ in range(want_extra):
@@ -757,8 +763,7 @@ def compare(sctx, pctx, s, p, diff, ptr="", flags=frozenset(), skip=frozenset(),
         #  B. the source is the RemoveRefSiblings form `{allOf: [{$ref}], siblings..}`
         #     of a reference and the published side kept only the reference:
         #     the reference targets correspond, the siblings were dropped.
-        # B is only possible for the wrapper form; when both are, the reading
-        # that explains more (fewer differences) is taken.
+        # B is only possible for the wrapper form.
         pt, _ = pctx.resolve(p, 1)
         if pt is None:
             diff.add("altered", "$ref", ptr, None, p["$ref"] + " (dangling)", flags)
@@ -782,15 +787,16 @@ def compare(sctx, pctx, s, p, diff, ptr="", flags=frozenset(), skip=frozenset(),
         if not wrapper:
             reading_a(diff)
             return
-        da, db = Diff(), Diff()
-        da.pairs, db.pairs = set(diff.pairs), set(diff.pairs)
-        reading_a(da)
-        reading_b(db)
-        same_target = s["allOf"][0]["$ref"] == p["$ref"]
-        if len(db.items) < len(da.items) or (same_target and len(db.items) == len(da.items)):
+        # B when the published reference is the inner reference itself; A when
+        # the published target is again a reference / wrapper (the rendering of
+        # this very schema under its own name); B otherwise (inner reference
+        # published under a disambiguated name)
+        if s["allOf"][0]["$ref"] == p["$ref"]:
             reading_b(diff)
-        else:
+        elif "$ref" in pt or "allOf" in pt:
             reading_a(diff)
+        else:
+            reading_b(diff)
         return
 
     # the unit type: F5
